@@ -80,7 +80,7 @@ def tnJson : Option String → Json
 
 partial def obsJson : Obs → Json
   | .missing => Json.str "missing"
-  | .node kind tn ns attrs verd orig fields ext flat =>
+  | .node kind tn ns attrs verd orig fields ext flat col =>
     Json.mkObj [("kind", Json.str (kindStr kind)), ("tn", tnJson tn),
       ("ns", match ns with | some s => Json.str s | none => Json.null),
       ("attrs", Json.arr (attrs.map (fun p => Json.arr #[Json.str p.1, avalJson p.2])).toArray),
@@ -88,7 +88,10 @@ partial def obsJson : Obs → Json
       ("orig", match orig with | some t => tnJson t | none => Json.null),
       ("fields", Json.arr (fields.map (fun p => Json.arr #[Json.str p.1, obsJson p.2])).toArray),
       ("ext", match ext with | some e => obsJson e | none => Json.null),
-      ("flat", Json.arr (flat.map Json.str).toArray)]
+      ("flat", Json.arr (flat.map Json.str).toArray),
+      ("col", match col with
+        | some d => Json.arr (d.map (fun p => Json.arr #[Json.str p.1, avalJson p.2])).toArray
+        | none => Json.null)]
 
 /-- pool indices -> class ids -/
 def decodeOp (pool : Array Nat) (j : Json) : Option Op :=
